@@ -316,7 +316,7 @@ func TestC13(t *testing.T) {
 	defer r.Finish()
 	maxLen := r.N(6, 8)
 	r.Extra("rule", fmt.Sprintf("part 1 (exhaustive): every string over {a, TAB, é, €, 😀, LF, CR, SP} up to length %d, wrapped four ways so that it "+
-		"lexes (block comment, line comment, string literal followed by a token, bare followed by a token); part 2: corpus files verbatim "+
+		"lexes (block comment, line comment, string literal followed by a token, bare followed by a token; thorough: length-8 strings in the block comment only); part 2: corpus files verbatim "+
 		"and re-rendered with tab/CR/FF/VT/multi-byte rich trivia, generator files, byte mutants (error positions). For each text every item "+
 		"(token/comment) Start, every AST node Start/End, every error position and FileInfo.SourcePos at every character boundary of the "+
 		"lexed part is compared with the byte-scan reference; evaluation = one text; non-trivial = text with a tab, CR, LF or multi-byte character", maxLen))
@@ -336,6 +336,11 @@ func TestC13(t *testing.T) {
 	total := 0
 	for L := 0; L <= maxLen; L++ {
 		total += pow[L]
+	}
+	// strings of the maximal length are wrapped one way only in the thorough tier (cost)
+	totalShort := total
+	if !r.Quick() {
+		totalShort = total - pow[maxLen]
 	}
 	const chunk = 2048
 	nChunks := (total + chunk - 1) / chunk
@@ -369,7 +374,10 @@ func TestC13(t *testing.T) {
 		var evals, nontrivial, positions, full int64
 		for idx := c * chunk; idx < (c+1)*chunk && idx < total; idx++ {
 			s := decode(idx)
-			for _, w := range wrappers {
+			for wi, w := range wrappers {
+				if wi > 0 && idx >= totalShort {
+					continue // the longest strings go through the block-comment wrapper only
+				}
 				id := fmt.Sprintf("%s/%d/%s", cid, idx, w.name)
 				if r.Replaying() && !r.Want(id) {
 					continue
